@@ -1159,9 +1159,9 @@ def expected_blocks(L, pol, il):
     if il and any(b[2] == jump for b in blocks):
         return None  # is the section that ends at the D.C. / D.S. played twice on the way through after the jump?
     landing = set([0] + L["segnos"] + L["codas"])
-    taking_off = set([jump] + L["tocodas"])
-    if any(b[2] in taking_off and b[1] in landing for b in blocks):
-        return None  # a repeat from the segment with the instruction back to a jump destination is taken for the leap
+    if any(b[2] == jump and b[1] in landing for b in blocks):
+        return None  # a repeat from the segment with the D.C. / D.S. back to a jump destination is taken for the leap
+                     # (a To Coda at such a place was, too, before fixes/C09-8)
     after = bool(il)
     out = play_blocks(blocks, first, jump, True) + play_blocks(blocks, dest, stop, after)
     if coda is not None:
